@@ -53,7 +53,33 @@ func (ex *Exec) constVal(c *ssa.Const) *Val {
 // ---- memory ----
 
 func (ex *Exec) fieldVar(structName, field string, fs *Sort) string {
-	return ex.regSV("H_"+sanitize(structName)+"_"+sanitize(field), SArr(SInt, fs))
+	n := "H_" + sanitize(structName) + "_" + sanitize(field)
+	if ex.fieldOf == nil {
+		ex.fieldOf = map[string][2]string{}
+	}
+	ex.fieldOf[n] = [2]string{structName, field}
+	return ex.regSV(n, SArr(SInt, fs))
+}
+
+// assumeFieldInvAll: a fresh (entry or havocked) version of a field heap satisfies the field's
+// invariants at every object (they are proved at every store in verified code).
+func (ex *Exec) assumeFieldInvAll(st *State, name, term string) {
+	sf, ok := ex.fieldOf[name]
+	if !ok {
+		return
+	}
+	invs := ex.cs.FieldInvs[sf[0]+"."+sf[1]]
+	if len(invs) == 0 || ex.inFieldInv {
+		return
+	}
+	ex.inFieldInv = true
+	defer func() { ex.inFieldInv = false }()
+	s := ex.svSort(name)
+	for _, inv := range invs {
+		env := &Env{ex: ex, vars: map[string]*Val{"$v": {T: "(select " + term + " q_o)", S: s.Elem}, "$o": {T: "q_o", S: SRef(sf[0])}}, cur: st, old: st}
+		body := ex.trBool(inv.Expr, env)
+		ex.vc.assume("(forall ((q_o Int)) (! " + body + " :pattern ((select " + term + " q_o))))")
+	}
 }
 func (ex *Exec) cellVar(s *Sort) string {
 	return ex.regSV("C_"+s.Ident(), SArr(SInt, s))
@@ -364,6 +390,15 @@ func (fr *Frame) execInstr(ins ssa.Instruction) {
 				a.Ptr.ElemsOf.Elems[n] = v
 			}
 		}
+		if a.Ptr.Kind == "field" {
+			for k, inv := range ex.cs.FieldInvs[a.Ptr.Struct+"."+a.Ptr.Field] {
+				env := &Env{ex: ex, vars: map[string]*Val{"$v": v, "$o": {T: a.Ptr.Ref, S: SRef(a.Ptr.Struct)}}, cur: st, old: st, fr: fr}
+				g := ex.trBool(inv.Expr, env)
+				if ex.topFn != nil {
+					vc.oblige("fieldinv", ex.oblName(fmt.Sprintf("%s/fieldinv@%s.%s:%d", ex.vc.fn, a.Ptr.Struct, a.Ptr.Field, k)), fr.curReach, g, inv.Src, ex.posOf(ins.Pos()), nil)
+				}
+			}
+		}
 		if a.Ptr.Kind == "index" && a.Ptr.Base.Kind == "value" {
 			vc.unsupported("store into slice element without provenance in " + fr.key + " at " + ex.posOf(ins.Pos()))
 			return
@@ -382,6 +417,15 @@ func (fr *Frame) execInstr(ins ssa.Instruction) {
 				}
 				if s.K == KRef {
 					ex.assumeAllocated(st, v.T)
+				}
+				if s.K == KAny {
+					vc.assume("(anyWF " + v.T + ")")
+				}
+				if x.Ptr.Kind == "field" {
+					for _, inv := range ex.cs.FieldInvs[x.Ptr.Struct+"."+x.Ptr.Field] {
+						env := &Env{ex: ex, vars: map[string]*Val{"$v": v, "$o": {T: x.Ptr.Ref, S: SRef(x.Ptr.Struct)}}, cur: st, old: st, fr: fr}
+						vc.assume(imp(fr.curReach, ex.trBool(inv.Expr, env)))
+					}
 				}
 				if x.Ptr.ElemsOf != nil && x.Ptr.Kind == "cell" {
 					v.Elems = x.Ptr.ElemsOf.Elems
@@ -634,6 +678,9 @@ func (fr *Frame) havocVal(hint string, s *Sort) *Val {
 	v := &Val{T: ex.vc.fresh(hint, s), S: s}
 	if s.K == KRef {
 		ex.vc.assume("(>= " + v.T + " 0)")
+	}
+	if s.K == KAny {
+		ex.vc.assume("(anyWF " + v.T + ")")
 	}
 	return v
 }
